@@ -5,6 +5,7 @@ that the analysed functions cannot distinguish more than the quotient does (e.g.
 compared with the corresponding field of the other version), and then enumerates one representative per
 abstract state; under that precondition the resulting table is exact for all concrete inputs.  Anything outside
 the supported subset raises Unsupported, which the caller turns into exit 2 (never a guess)."""
+import re
 from . import sx as SX
 
 
@@ -25,6 +26,15 @@ class Thrown(Exception):
     """the analysed code throws on this abstract state (e = the thrown expression)"""
     def __init__(self, e):
         self.e = e
+
+
+class Ptr:
+    """pointer to a scalar lvalue: the lvalue's syntax and the environment it is evaluated in"""
+    def __init__(self, e, env):
+        self.e, self.env = e, env
+
+    def __deepcopy__(self, memo):
+        return self      # copying a pointer does not copy what it points to
 
 
 class Obj(dict):
@@ -281,13 +291,17 @@ class Interp:
             if op == '-':
                 return -self.expr(e['e'], env)
             if op == '*':
-                return self.expr(e['e'], env)
+                v = self.expr(e['e'], env)
+                if isinstance(v, Ptr):
+                    return self.expr(v.e, v.env)
+                return v
             if op == '&':
                 # address of an object or of a container element: the object itself (structs have reference semantics here)
                 v = self.expr(e['e'], env)
                 if isinstance(v, (Obj, list, dict)):
                     return v
-                raise Unsupported('address of a scalar')
+                # address of a scalar lvalue: a pointer that reads/writes that location
+                return Ptr(e['e'], env)
             if op in ('++', '--'):
                 cur = self.expr(e['e'], env)
                 new = (cur or 0) + (1 if op == '++' else -1)
@@ -324,6 +338,9 @@ class Interp:
                 if cand in self.models:
                     return self.models[cand](self, e, env)
             if op in ('==', '!=', '<', '>', '<=', '>=') and len(e['args']) == 2:
+                cp = SX.cmp_parts(e)      # C++20: (a <=> b) < 0 is a < b
+                if cp and cp[0] == op:
+                    return self.binop(op, self.expr(cp[1], env), self.expr(cp[2], env))
                 return self.binop(op, self.expr(e['args'][0], env), self.expr(e['args'][1], env))
             if op == '=' and len(e['args']) == 2:
                 v = self.expr(e['args'][1], env)
@@ -389,6 +406,9 @@ class Interp:
                         src[i_] = a[2]
                     return None
                 raise Unsupported('call ' + SX.callee(e))
+            if k == 'call' and (SX.callee(e) or '').split('<')[0] in ('std::tie', 'std::make_tuple', 'std::forward_as_tuple', 'std::make_pair'):
+                # tuples of scalars, used for lexicographic comparison: a Python tuple of the current values
+                return tuple(self.expr(a, env) for a in SX.real_args(e))
             if k == 'call' and SX.callee(e) in ('std::isdigit', 'isdigit') and len(SX.real_args(e)) == 1:
                 c = self.expr(SX.real_args(e)[0], env)
                 return isinstance(c, str) and len(c) == 1 and c.isdigit() and c.isascii()
@@ -481,6 +501,8 @@ class Interp:
                 if t in ('int', 'long', 'unsigned long', 'size_t', 'double', 'float', 'bool', 'char'):
                     return False if t == 'bool' else 0
                 return None
+            if not rec and re.search(r'\[\d*\]$', e.get('type', '')):
+                return [self.expr(it, env) for it in e['items']]      # built-in array: T a[N] = {…}
             if not rec and len(e['items']) == 1:
                 return self.expr(e['items'][0], env)      # scalar brace initialisation: int x{0}
             raise Unsupported('initlist ' + e['type'])
@@ -628,6 +650,10 @@ class Interp:
                 b[l['name']] = v
                 self.effects.append(('store', l['name'], v))
                 return
+        if l['k'] == 'un' and l.get('op') == '*':
+            p_ = self.expr(l['e'], env)
+            if isinstance(p_, Ptr):
+                return self.store(p_.e, v, p_.env)
         raise Unsupported('store to ' + SX.show(l))
 
     @staticmethod
